@@ -31,7 +31,7 @@ Definition achunk_eqb (a b : achunk) : bool :=
   && option_eqb samples_eqb (k_max a) (k_max b)
   && option_eqb samples_eqb (k_counter a) (k_counter b).
 
-Definition corr_ok (c : case) : bool :=
+Definition corr_model (c : case) : bool :=
   match c with
   | CAggr res nc ins out =>
       option_eqb (list_eqb achunk_eqb) (downsample_aggr_m res nc ins) (Some out)
@@ -58,7 +58,7 @@ Definition wf_series (l : list sample) : bool :=
   forallb (fun s => (0 <=? fst s) && (fst s <=? max_int64)) l && sorted_le (map fst l).
 
 Definition valid_input (res : Z) (nc : nat) (ins : list achunk) : bool :=
-  (0 <? res) && Nat.leb 1 (length ins / nc)
+  (0 <? res)
   && wf_series (series k_count ins) && wf_series (series k_sum ins)
   && wf_series (series k_min ins) && wf_series (series k_max ins).
 
@@ -74,6 +74,24 @@ Definition last_ot (l : list sample) : option Z := match l with [] => None | _ =
 (* timestamps of one aggregate of the output: ordered, inside the input's span *)
 Definition ts_ok (i o : list sample) : bool :=
   sorted_le (map fst o) && within (first_t i) (last_ot i) o.
+
+(* The property's domain (5m chunks written by Thanos, re-downsampled to 1h): a chunk written by
+   DownsampleRaw at 5m holds at most 706 rows (141 expected samples x 5 one-minute scrapes) and
+   targetChunkCount(5m -> 1h) is at most (count/12 + 2)/141 + 1: its float estimate of the
+   expected number of samples is at most count*5m/1h + 2, and its loop returns the least x with
+   expSamples/x <= 140.  Checked on the implementation's values when res = ResLevel2; the
+   theorem C38_clamp_noop_in_domain shows that then numChunks <= len(chks). *)
+Definition domain_ok (nc : nat) (ins : list achunk) : bool :=
+  forallb (fun k => Nat.leb (length (olist (k_count k))) 706) ins
+  && (Z.of_nat nc <=? (Z.of_nat (length (series k_count ins)) / 12 + 2) / 141 + 1).
+
+(* correspondence: the model reproduces the implementation's output, and (for 5m -> 1h) the
+   assumptions about the unmodelled float heuristic hold of the implementation's values *)
+Definition corr_ok (c : case) : bool :=
+  corr_model c &&
+  match c with
+  | CAggr res nc ins _ => if res =? ResLevel2 then domain_ok nc ins else true
+  end.
 
 Definition pred_ok (c : case) : bool :=
   match c with
